@@ -36,6 +36,15 @@ CHECKS = {
  "C09": ("stateful property-based testing (proptest) with must-succeed probes on cloned worlds and differential fault injection (swap/oracle stubs failing or returning garbage)",
          "Exploration with fault injection: at sampled states of generated histories (slashed, dust, drained) every holder x token x {1, half, all} is taken through the whole exit (unbond, epoch+1, undelegating unbond, unbonding period, withdraw) on a cloned world and must succeed; every user-path operation is re-executed with failing / garbage swap and oracle stubs and must give the identical result and state.",
          "DESIGN.md 5 C09"),
+ "C13": ("stateful property-based testing (proptest): generated histories with registry operations, chain-state equations on the removal transaction (redelegation events, delegations, books)",
+         "Exploration: validator removals (registered, unregistered, last; with pending rewards, in-flight batches, blocked redelegations) and re-additions are placed at arbitrary points of generated histories; a successful removal must leave nothing on the removed validator, redelegate exactly its stake to validators registered after the removal, change total delegated only by the rewards re-bonded, and later bonds must avoid unregistered validators.",
+         "DESIGN.md 5 C13"),
+ "C17": ("property-based testing (proptest) of direct dispatcher inputs: exact rational share (512-bit) with a derived tolerance, conservation and floor equations, zero-send detection via the simulated bank",
+         "Exploration: 100 000 (quick) generated combinations of dispatcher balances, bonded pair, oracle price over 18 orders of magnitude and keeper rate are run through SwapToRewardDenom and DispatchRewards as one executed transaction each; the post-swap stSei share is compared with the exact rational share, the keeper must get exactly floor(balance x rate), the remainder must reach the reward contract (then index update) and the hub (BondRewards), nothing may stay, and no zero-coin bank send may be emitted. The zero-send defect found is listed as known finding.",
+         "DESIGN.md 5 C17"),
+ "C19": ("stateful property-based testing (proptest): generated full-system histories + structured reward-round scenarios, end-state accounting equations across four contracts and the simulated chain on every index update",
+         "Exploration: every UpdateGlobalIndex (by the updater or via validator removal) in generated histories must succeed while stake is bonded, withdraw every validator's rewards, leave the dispatcher empty, book exactly the re-bonded coins in the stSei pool, change no token balance, no unbonder claim and not the hub's liquid balance, pay the keeper floor(balance x rate), split by bonded stake (C17 oracle) and raise the holders' total accrual by the delivered amount within dust. The zero-send failure is listed as known finding.",
+         "DESIGN.md 5 C19"),
 }
 
 PENDING = {}
